@@ -510,7 +510,9 @@ def run_plan(plan):
                 try:
                     def update_refs(remote):
                         outcome["advertised"] = dict(remote)
-                        new = dict(remote)
+                        # a callback may as well edit the dict it is handed
+                        new = remote if plan["seed"] % 3 == 0 else \
+                            dict(remote)
                         for n in chosen:
                             new[n] = srefs[n]
                         return new
